@@ -79,6 +79,17 @@ def cases(draw):
             r["lb"], r["ub"] = -2000.5, 0.1
         elif k == 3:
             r["lb"], r["ub"] = -1000, 1000
+    # Notes with the keys that the reader interprets in documents without the fbc/groups packages (FORMULA, CHARGE, GENE
+    # ASSOCIATION, SUBSYSTEM): in a document written by cobrapy they are ordinary notes and must come back as such, without
+    # touching formula, charge, rule, subsystem or groups
+    if draw(st.sampled_from([False, False, True])):
+        for m in spec["mets"]:
+            if draw(st.booleans()):
+                m["notes"] = {**m["notes"], **draw(st.sampled_from([{"FORMULA": "C6H13O9P"}, {"CHARGE": "2"}, {"FORMULA": "H2O", "CHARGE": "-1"}]))}
+        for r in spec["rxns"]:
+            if draw(st.booleans()):
+                r["notes"] = {**r["notes"], **draw(st.sampled_from([{"GENE ASSOCIATION": "gx and gy"}, {"GENE_ASSOCIATION": "gz"}, {"SUBSYSTEM": "Glycolysis"},
+                                                                    {"SUBSYSTEM": "Transport", "GENE ASSOCIATION": "gx"}]))}
     # Objects of different kinds may share an identifier (the SBML prefixes M_/R_/G_ keep them apart)
     if fr == "default" and draw(st.sampled_from([False, False, True])):
         specs.share_ids(draw, spec)
@@ -191,6 +202,8 @@ def spec_patterns(spec):
         pats.add("sbml-zero-objective")
     if {g["id"] for g in spec["groups"]} & {g["id"] for g in spec["genes"]}:
         pats.add("sbml-gene-group-id-clash")
+    if not spec["groups"] and any("SUBSYSTEM" in r["notes"] for r in spec["rxns"]):
+        pats.add("sbml-subsystem-note-legacy")
     return pats
 
 
